@@ -100,8 +100,13 @@ def observe(case):
             canon["ops_diff"] = {k: sorted(map(str, v)) for k, v in od.items()}
         except Exception as e:  # noqa: BLE001
             canon = {"raises": C.exc_name(e) + ": " + str(e)[:160]}
+        # the iterations of a trace: the numbers of its ProfilerStep#k annotations in ascending order, read off the rows
+        # (not taken from the implementation: the default selection "first iteration" depends on that order)
+        def its(rows_by_rank):
+            return sorted({int(x[9].split("#")[1]) for rows in rows_by_rank.values() for x in rows
+                           if x[9].startswith("ProfilerStep#") and x[9].split("#")[1].isdigit()})
         return {"control": crow, "test": trow, "short": short, "canon": canon,
-                "iters_c": lc.iterations(), "iters_t": lt.iterations()}
+                "iters_c": its(crow), "iters_t": its(trow), "impl_iters": [list(lc.iterations()), list(lt.iterations())]}
     finally:
         htaio.remove_case_dir(f1)
         htaio.remove_case_dir(f2)
